@@ -20,6 +20,7 @@ from . import common  # noqa: F401
 from .enclib import BES, bits_of, parse_answer, parse_col, parse_cols, target_limb_and_scale
 
 LAYOUTS = ["glwe", "gglwe", "ggsw", "ksk", "atk", "tsk", "g2g"]
+MODEL_LAYOUTS = ("glwe", "gglwe", "ggsw", "ksk", "tsk")
 
 
 def gen_case(rng, idx):
@@ -48,9 +49,27 @@ def gen_case(rng, idx):
         c["rank_in"] = rank
     if lay == "atk":
         c["p"] = rng.choice([-1, 1, 3, 5, -3, 7, -5])
+    if lay == "tsk" and rng.chance(1, 2):
+        # tensor secrets are normalised at radix 2^17: at a small key radix every coefficient carries through several limbs
+        c["b"] = b = rng.range(2, 4)
+        c["k"] = c["kxe"] = (size - 1) * b + rng.range(1, b)
     if lay in ("gglwe", "ggsw"):
         cols = c["rank_in"] if lay == "gglwe" else 1
-        c["pt"] = ";".join(",".join(str(rng.range(-3, 3)) for _ in range(n)) for _ in range(cols))
+        # caller-supplied ScalarZnx: small, at the carry boundary 2^(b-1), or well above the radix (carries into the limbs
+        # above the gadget limb of the routine's temporary)
+        mode = rng.range(0, 3)
+        half = 1 << (b - 1)
+
+        def coef():
+            if mode == 0:
+                return rng.range(-3, 3)
+            if mode == 1:
+                return rng.choice([half, -half, half - 1, -half - 1, 2 * half, -2 * half, 0, half + 1])
+            if mode == 2:
+                return rng.range(-(8 * half), 8 * half)
+            return rng.range(-(1 << min(3 * b, 40)), 1 << min(3 * b, 40))
+        c["pt"] = ";".join(",".join(str(coef()) for _ in range(n)) for _ in range(cols))
+        c["ptmode"] = mode
     if lay == "glwe":
         c["ptv"] = "|".join(",".join(str(rng.range(-(1 << (b - 1)), (1 << (b - 1)) - 1)) for _ in range(n)) for _ in range(size))
     return c
@@ -76,7 +95,10 @@ def model_line(i, c, a):
     if c["layout"] == "glwe":
         e = parse_col(a["e"])
         return f"{i} enc glwe_cmp {head} sk={a['sk']} xa={a['child']} e={','.join(str(x) for x in e[limb])} pt={a['ptv']}"
-    op = "cmp_gglwe" if c["layout"] == "gglwe" else "cmp_ggsw"
+    if c["layout"] == "tsk":
+        return (f"{i} enc cmp_tsk {head} dnum={c['dnum']} dsize={c['dsize']} sk={a['sk']} top={a['top']} "
+                f"seeds={a['seeds']} child={a['child']} es={err_polys(a['e'], limb)}")
+    op = "cmp_ggsw" if c["layout"] == "ggsw" else "cmp_gglwe"
     return (f"{i} enc {op} {head} rank_in={c['rank_in']} dnum={c['dnum']} dsize={c['dsize']} sk={a['sk']} pt={a['pt']} top={a['top']} "
             f"seeds={a['seeds']} child={a['child']} es={err_polys(a['e'], limb)}")
 
@@ -112,7 +134,7 @@ def run(ctx):
                 _, st, a = parse_answer(line)
                 lay = c["layout"]
                 per_layout[lay] = per_layout.get(lay, 0) + 1
-                ctx.count_case((lay, c["be"], c["n"], c["rank"], c["rank_in"], c["dnum"], c["dsize"], c["size"], min(c["b"], 18) // 4, c["dist"][:2]))
+                ctx.count_case((lay, c["be"], c["n"], c["rank"], c["rank_in"], c["dnum"], c["dsize"], c["size"], min(c["b"], 18) // 4, c["dist"][:2], c.get("ptmode", -1)))
                 if st != "ok":
                     ctx.disagreements += 1
                     if len(broken) < 20:
@@ -128,7 +150,7 @@ def run(ctx):
                          "oracle": f"cells={cells} masks={a['masks']} phases-equal={a['dec']} cellenc={a['cellenc']} ser={a['ser']} seeds-in-loop-order={a['seedwords']}",
                          "rerun": f"printf '%s\\n' '{hl[i]}' | harness/target/release/pvh cmp"}
                     witness = witness or w
-                if lay in ("glwe", "gglwe", "ggsw"):
+                if lay in MODEL_LAYOUTS:
                     ml.append(model_line(i, c, a))
                     idx.append(i)
                 if len(ctx.samples) < 8 and i % 83 == 0:
@@ -167,6 +189,36 @@ def run(ctx):
             if rcb != 0 or len(bout) != len(bl):
                 broken.append(f"pvh rndb brkc_check failed rc={rcb} {berr[-300:]}")
             else:
+                # model recomputation of the whole compressed blind-rotation key (every GGSW, every cell, every stored seed)
+                bml, bidx = [], []
+                for j, (req, line) in enumerate(zip(bl, bout)):
+                    _, st, a = parse_answer(line)
+                    if st != "ok":
+                        continue
+                    kv = dict(x.split("=", 1) for x in req.split()[2:] if "=" in x)
+                    bb, kb = int(kv["b"]), int(kv["kbrk"])
+                    limb = target_limb_and_scale(kb, bb)[0]
+                    bml.append(f"{j} enc cmp_brk bits={bits_of(kv['be'])} n={kv['n']} b={bb} k={kb} kxe={kb} size={a['size']} rank={kv['rank']} dnum={a['dnum']} "
+                               f"sk={a['sk']} sklwe={a['sklwe']} top={a['top']} gseeds={a['gseeds']} sub={a['sub']} seeds={a['seeds']} child={a['child']} "
+                               f"es={err_polys(a['e'], limb)}")
+                    bidx.append(j)
+                rcm, bmout, bmerr = ctx.run_lines(drv, [], bml, timeout=3000)
+                if rcm != 0 or len(bmout) != len(bml):
+                    broken.append(f"pdriver cmp_brk failed rc={rcm} lines={len(bmout)}/{len(bml)} {bmerr[-300:]}")
+                else:
+                    bagree = 0
+                    for j, ln in zip(bidx, bmout):
+                        _, st, a = parse_answer(bout[j])
+                        t = ln.split()
+                        if len(t) >= 3 and t[1] == a["seeds"] and t[2] == a["obj"]:
+                            bagree += 1
+                        else:
+                            ctx.disagreements += 1
+                            if len(broken) < 20:
+                                broken.append(f"model/implementation disagree (brkc): {bl[j]}")
+                                ctx.cov.setdefault("first_disagreement", {"harness": bl[j], "impl": bout[j][:1500], "model": ln[:1500]})
+                    ctx.cov["model_tied_brkc"] = len(bml)
+                    ctx.cov["model_agree_brkc"] = bagree
                 for req, line in zip(bl, bout):
                     _, st, a = parse_answer(line)
                     per_layout["brkc"] = per_layout.get("brkc", 0) + 1
